@@ -16,7 +16,7 @@ here, in the same spirit as the std models:
   p.map(f), p.void(), p.parse_next(&mut input), p.parse_peek(input)
 """
 from .values import *
-from .models import reg, as_sstr, call_closure, Some, NONE, Ok, Err, opt
+from .models import reg, as_sstr, call_closure, Some, NONE, Ok, Err, opt, map_insert, map_find
 from .strmodels import chars_of, sub, byte_in, bytes_equal
 
 
@@ -98,6 +98,11 @@ def run(I, p, s):
         last = pv.path.split('<')[0].split('::')[-1].strip()
         if last.startswith('multispace'):
             return _multispace(I, s, 1 if last == 'multispace1' else 0)
+        if last in LEAVES:
+            kw = LEAVES[last]
+            if 'chars' in kw:
+                return _take(I, s, (kw['minimum'], None), lambda c: byte_in(c, kw['chars']), True)
+            return _take(I, s, (kw['minimum'], None), kw['pred'], True)
         # a crate function `fn(&mut &str) -> Result<T, E>`
         cell = Cell(s)
         r = I.call_value(pv, [Ref(cell, ())])
@@ -173,6 +178,61 @@ def _from_type(t):
     if t.endswith('}') and ' {' in t:
         return FnItem(t[t.rfind(' {') + 2:-1].strip())
     raise Unmodelled('zero-sized winnow parser type %s' % t[:80])
+
+
+def _acc_kind(ci):
+    """Accumulator type of repeat::<I, O, C, ..> / separated::<I, O, C, ..>: the third generic argument."""
+    raw = ci.raw
+    k = raw.find('::<')
+    if k < 0:
+        return 'vec'
+    depth, j = 0, k + 2
+    while j < len(raw):
+        if raw[j] == '-' and raw[j:j + 2] == '->':
+            j += 2
+            continue
+        if raw[j] == '<':
+            depth += 1
+        elif raw[j] == '>':
+            depth -= 1
+            if depth == 0:
+                break
+        j += 1
+    gen = _split_top(raw[k + 3:j])
+    t = gen[2] if len(gen) > 2 else ''
+    if t == '()':
+        return 'unit'
+    t0 = t.split('<')[0].split('::')[-1]
+    if t0 in ('HashMap', 'BTreeMap'):
+        return t0
+    if t0 in ('HashSet', 'BTreeSet'):
+        return t0
+    if t0 == 'String':
+        return 'string'
+    if t0 == 'usize':
+        return 'count'
+    return 'vec'
+
+
+def _accumulate(I, kind, outs):
+    if kind == 'vec':
+        return VecVal(outs)
+    if kind == 'unit':
+        return UNIT
+    if kind == 'count':
+        return len(outs)
+    if kind in ('HashMap', 'BTreeMap'):
+        cell = Cell(MapVal((), kind))
+        for o in outs:
+            map_insert(I, Ref(cell, ()), o.f[0], o.f[1])
+        return cell.v
+    if kind in ('HashSet', 'BTreeSet'):
+        cell = Cell(MapVal((), kind))
+        for o in outs:
+            if map_find(I, cell.v, o) < 0:
+                cell.v = MapVal(cell.v.entries + (Struct('tuple', (o, UNIT)),), kind)
+        return cell.v
+    raise Unmodelled('winnow accumulator %s' % kind)
 
 
 def _multispace(I, s, minimum):
@@ -269,10 +329,35 @@ def _run_wp(I, p, s):
                 raise Truncated('winnow repeat bound')
         if len(outs) < lo:
             raise Backtrack()
-        return VecVal(outs), cur
+        return _accumulate(I, a[2], outs), cur
+    if k == 'separated':
+        lo, hi = a[0]
+        outs = []
+        cur = s
+        try:
+            out, cur = run(I, a[1], cur)
+            outs.append(out)
+        except Backtrack:
+            pass
+        while outs and (hi is None or len(outs) < hi):
+            try:
+                _o, nxt = run(I, a[2], cur)
+                out, nxt = run(I, a[1], nxt)
+            except Backtrack:
+                break
+            if len(nxt.b) == len(cur.b):
+                raise Panic('winnow separated: parsers succeeded without consuming input')
+            outs.append(out)
+            cur = nxt
+            if len(outs) > 64:
+                raise Truncated('winnow separated bound')
+        if len(outs) < lo:
+            raise Backtrack()
+        return _accumulate(I, a[3], outs), cur
     if k == 'fold':
         rep, init, f = a
-        outs, cur = run(I, rep, s)
+        rp = I.deref_value(rep) if isinstance(rep, Ref) else rep
+        outs, cur = run(I, WP('repeat', rp.args[0], rp.args[1], 'vec'), s)
         acc = I.call_value(init, [])
         for o in outs.items:
             acc = I.call_value(f, [acc, o])
@@ -338,7 +423,12 @@ def _alt(I, a, ci, dt):
 
 @reg('repeat', 'combinator::repeat')
 def _repeat(I, a, ci, dt):
-    return WP('repeat', _range_min_max(I, a[0]), a[1])
+    return WP('repeat', _range_min_max(I, a[0]), a[1], _acc_kind(ci))
+
+
+@reg('separated', 'combinator::separated')
+def _separated(I, a, ci, dt):
+    return WP('separated', _range_min_max(I, a[0]), a[1], a[2], _acc_kind(ci))
 
 
 @reg('Repeat::fold')
@@ -388,6 +478,55 @@ def _p_parse_peek(I, a, ci, dt):
     except Backtrack:
         return Err(Opaque('ContextError'))
     return Ok(Struct('tuple', (rest, out)))
+
+
+def _leaf(name, chars=None, pred=None, minimum=0):
+    def model(I, a, ci, dt):
+        inp = a[0]
+        s = as_sstr(I, I.load(inp))
+        try:
+            if chars is not None:
+                out, rest = _take(I, s, (minimum, None), lambda c: byte_in(c, chars), True)
+            else:
+                out, rest = _take(I, s, (minimum, None), pred, True)
+        except Backtrack:
+            return Err(Opaque('ContextError'))
+        I.store(inp, rest)
+        return Ok(out)
+    return model
+
+
+def _is_alpha(c):
+    import z3
+    from .strmodels import byte_between, conc
+    if conc(c):
+        return (65 <= c <= 90) or (97 <= c <= 122)
+    return z3.Or(byte_between(c, 65, 90), byte_between(c, 97, 122))
+
+
+def _is_digit(c):
+    from .strmodels import byte_between, conc
+    if conc(c):
+        return 48 <= c <= 57
+    return byte_between(c, 48, 57)
+
+
+def _is_alnum_ascii(c):
+    import z3
+    a, d = _is_alpha(c), _is_digit(c)
+    if isinstance(a, bool) and isinstance(d, bool):
+        return a or d
+    return z3.Or(a, d)
+
+
+LEAVES = {
+    'space0': dict(chars=(32, 9), minimum=0), 'space1': dict(chars=(32, 9), minimum=1),
+    'alpha0': dict(pred=_is_alpha, minimum=0), 'alpha1': dict(pred=_is_alpha, minimum=1),
+    'digit0': dict(pred=_is_digit, minimum=0), 'digit1': dict(pred=_is_digit, minimum=1),
+    'alphanumeric0': dict(pred=_is_alnum_ascii, minimum=0), 'alphanumeric1': dict(pred=_is_alnum_ascii, minimum=1),
+}
+for _n, _kw in LEAVES.items():
+    reg(_n, 'ascii::' + _n)(_leaf(_n, **_kw))
 
 
 @reg('multispace0', 'ascii::multispace0')
